@@ -50,6 +50,29 @@ class Ctx:
             self.bad(rule, key, detail_bad, where)
         return bool(cond)
 
+    # -- sharing ---------------------------------------------------------------
+    def borrow(self, from_prop: str, prefixes, rule: str, floor: int = 1) -> None:
+        """Report, under `rule` of this property, the instances of another property's rules whose key starts with one of
+        `prefixes`: a clause both properties depend on is decided once, by the rules written for it, and a defect is
+        reported by every property it breaks. (Sub-runs do not borrow in turn.)"""
+        if getattr(self, "_is_subrun", False):
+            return
+        import importlib
+        cache = self.model.__dict__.setdefault("_borrow_cache", {})     # lives and dies with the parsed tree
+        if from_prop not in cache:
+            sub = Ctx(self.model, from_prop, self.tier)
+            sub._is_subrun = True
+            importlib.import_module(f"rules.{from_prop.lower()}").run(sub)
+            cache[from_prop] = (sub.results, set(sub.analysed_functions))
+        results, analysed = cache[from_prop]
+        n = 0
+        for r in results:
+            if any(r["key"].startswith(p) for p in prefixes):
+                n += 1
+                self._record(rule, f"{from_prop}:{r['key']}", r["verdict"], r["detail"], r["where"])
+        if n < floor:
+            self.bad(rule, f"{from_prop}:{'|'.join(prefixes)}", f"the shared rule instances {list(prefixes)} of {from_prop} were not produced (anchor moved?)", "")
+
     def saw(self, fi) -> None:
         self.analysed_functions.add(fi.qualname if hasattr(fi, "qualname") else str(fi))
 
